@@ -114,6 +114,60 @@ pub fn check_doc(case: &DocCase, doc: &ADoc, st: &mut Stats) -> Result<(), Failu
         if t2 != t1 {
             return Err(fail("identity:bytes", format!("{mode}: serializing the reloaded model is not byte-identical")));
         }
+        // C: the same holds when the file is not alone: a model that already holds a small file of ANOTHER schema version
+        // (a package of its own) must give the document's file the same text and version as the single-file model did
+        {
+            let cv = versions()[(case.vi + 1 + (bytes.len() % (NVER - 1))) % NVER];
+            let companion = format!("{}<AR-PACKAGES><AR-PACKAGE><SHORT-NAME>ZzVerifCompanion</SHORT-NAME></AR-PACKAGE></AR-PACKAGES></AUTOSAR>", hdr(cv));
+            let m3 = AutosarModel::new();
+            if m3.load_buffer(companion.as_bytes(), "companion.arxml", strict).is_ok() {
+                let _watch = watch_case(&bytes, "load_buffer(second file)");
+                match m3.load_buffer(&bytes, "test.arxml", strict) {
+                    Ok((f3, _)) => {
+                        st.class("companion-file-of-another-version:loaded");
+                        let t3 = f3.serialize().map_err(|e| fail("serialize-error", format!("{mode}: serialize in a two-file model failed: {e}")))?;
+                        if f3.version() != doc.version {
+                            return Err(fail("faithful:version-in-multi-file-model", format!("{mode}: loaded next to a {cv:?} file, file.version() = {:?}, document says {:?}", f3.version(), doc.version)));
+                        }
+                        // the root element is one object shared by the files of a model (its attributes - incl. their order - and
+                        // its comment exist once per model), and an element that is empty in this file only is laid out differently:
+                        // the file's text is therefore judged by what it LOADS to, with the root's attributes reduced to the schema
+                        // location and the root's comment left out
+                        let a = t3.find("<AUTOSAR").unwrap_or(0);
+                        let tag3 = &t3[a..t3[a..].find('>').map(|i| a + i + 1).unwrap_or(a)];
+                        let loc = format!("http://autosar.org/schema/r4.0 {}\"", doc.version.filename());
+                        if !tag3.contains(&loc) {
+                            return Err(fail("identity:schema-location-in-multi-file-model", format!("{mode}: loaded into a model that already holds a file of version {cv:?}, the document's file (version {:?}) is written with the root tag {tag3}", doc.version)));
+                        }
+                        let (m4, f4, _) = match load(t3.as_bytes(), strict) {
+                            Ok(x) => x,
+                            Err(e) => return Err(fail("identity:multi-file-text-rejected", format!("{mode}: the text written for the document's file in a two-file model (other file: {cv:?}) is rejected on reload: {e}\n--- serialized ---\n{}", &t3[..t3.len().min(2000)]))),
+                        };
+                        if f4.version() != doc.version {
+                            return Err(fail("identity:schema-location-in-multi-file-model", format!("{mode}: the text written in a two-file model reloads as version {:?}, document says {:?}", f4.version(), doc.version)));
+                        }
+                        let (mut xa, mut xb) = (x1.clone(), extract_model(&m4));
+                        for x in [&mut xa, &mut xb] {
+                            x.comment = None;
+                            x.attrs.clear();
+                            // AR-PACKAGES is shared with the companion file as well (one comment / attribute list per model)
+                            for c in x.content.iter_mut() {
+                                if let AContent::Elem(n) = c {
+                                    if n.name == ElementName::ArPackages {
+                                        n.comment = None;
+                                        n.attrs.clear();
+                                    }
+                                }
+                            }
+                        }
+                        if let Some(d) = xa.diff(&xb, "") {
+                            return Err(fail("identity:text-depends-on-other-files", format!("{mode}: loaded into a model that already holds a file of version {cv:?} (one package of its own), the document's file serializes to text that loads to something else than the document: {d}\n--- serialized ---\n{}", &t3[..t3.len().min(2000)])));
+                        }
+                    }
+                    Err(_) => st.class("companion-file-of-another-version:merge-rejected"),
+                }
+            }
+        }
     }
     if st.want_sample() && bytes.len() < 900 && (flags.escapes || flags.comments) {
         st.sample(json!({"version": format!("{:?}", doc.version), "rendered_document": text, "elements": doc.root.count()}));
@@ -349,3 +403,4 @@ pub fn replay(ctx: &Ctx, case: &Value) {
     }
     ctx.merge(st);
 }
+
